@@ -193,3 +193,51 @@ def pieces(fn, ordinal=0):
         "locals": local_names,
         "body_src": "\n".join(ast.unparse(s) for s in loop.body),
     }
+
+
+def block_pieces(fn, iter_src):
+    """Pieces of a `for` loop NESTED inside other statements of fn (an inline walk inside an interpreter loop): the loop is
+    located by the source text of its iterable; `prefix` / `suffix` are the statements before / after it IN THE SAME
+    SUITE (the innermost block that contains the loop), `body` the loop body.  Same rules as `pieces` (real AST nodes,
+    own-level `continue`, refusal = engine limit).  What it decides is the block `prefix; for ...; suffix` for an
+    arbitrary pre-state of the function's locals; how the enclosing code reaches that block is not part of it."""
+    src = textwrap.dedent(inspect.getsource(fn))
+    tree = ast.parse(src)
+    fdef = tree.body[0]
+    want = iter_src.replace(" ", "")
+    found = []
+
+    def walk(suite):
+        for i, st in enumerate(suite):
+            if isinstance(st, ast.For) and ast.unparse(st.iter).replace(" ", "") == want:
+                found.append((suite, i, st))
+            for field in ("body", "orelse", "finalbody"):
+                sub = getattr(st, field, None)
+                if isinstance(sub, list) and sub and isinstance(sub[0], ast.stmt):
+                    walk(sub)
+            for h in getattr(st, "handlers", []) or []:
+                walk(h.body)
+
+    walk(fdef.body)
+    if len(found) != 1:
+        raise Refused("%d loops over %r in %s" % (len(found), iter_src, fn.__qualname__))
+    suite, idx, loop = found[0]
+    if _own_level(loop.body, (ast.Break, ast.Return)) or loop.orelse:
+        raise Refused("break/return/else in the nested loop")
+    code = fn.__code__
+    fn_locals = list(dict.fromkeys(list(code.co_varnames) + list(code.co_cellvars)))
+    filename = "<block piece %r of %s>" % (iter_src, fn.__qualname__)
+    targets = _names([loop.target], ast.Store)
+    return {
+        "prefix": _compile("prefix", suite[:idx], fn_locals, fn, filename, True),
+        "body": _compile("body", loop.body, fn_locals, fn, filename, None),
+        "suffix": _compile("suffix", suite[idx + 1 :], fn_locals, fn, filename, True),
+        "iter": _compile("iter", [ast.Return(value=ast.Tuple(elts=[ast.Constant(value="return"), loop.iter], ctx=ast.Load()))], fn_locals, fn, filename, False),
+        "targets": targets,
+        "iter_src": ast.unparse(loop.iter),
+        "locals": fn_locals,
+        "n_loops": 1,
+        "body_src": "\n".join(ast.unparse(s) for s in loop.body),
+        "prefix_src": "\n".join(ast.unparse(s) for s in suite[:idx]),
+        "suffix_src": "\n".join(ast.unparse(s) for s in suite[idx + 1 :]),
+    }
